@@ -13,6 +13,10 @@ from .disc_common import dispatcher, min_error_dual, min_error_primal, returns_o
 
 def run(ctx):
     m = ctx.model
+    from ..rules import r_parallel_families
+    for q_, f_ in sorted(m.functions.items()):
+        if f_.file.endswith("/state_distinguishability.py") and f_.parent is None and f_.param("vectors") is not None and f_.param("probs") is not None:
+            r_parallel_families(ctx, f_, ["vectors", "probs"])
     ctx.rule("R-SDP", "S1-S7 on the four programs: POVM cone and completeness, dual feasibility for every state, senses, read-back order, returned optimum")
     ctx.rule("R-ENUM", "p_i paired with rho_i and M_i of the same index over all states")
     ctx.rule("R-THREAD", "solver / **kwargs / probs / dim reach all four programs; dispatch by (strategy, primal_dual); default prior uniform")
